@@ -76,7 +76,7 @@ CLAIMED = {
          "DESIGN.md §4 C14"),
  "C13": ("generated fault sequences on real loopback sockets (proptest + fixed backbone) with schedule perturbation at labelled points; elapsed-time upper bounds re-measured, hung calls detected by a bounded wait; one process per worker",
          "Stalls at ten protocol phases (silent or dripping), slow redirect chains and immediately completing responses of every framing followed by reads before/after the deadline; asserts: the failing call returns within T (or R) + 400 ms, a stalled body is never reported complete, a completed response is never reported timed out, threads and descriptors return to the baseline within 300 ms of the drop. Delays injected at the six labelled watchdog/reader points check the schedule-independent halves.",
-         "Elapsed-time oracle with wide margins and up to three re-measurements: a regression of a few hundred milliseconds is not seen; only labelled points are perturbed, not arbitrary preemption; the CONNECT-tunnel route shares the plain-socket watchdog and is not separately driven.",
+         "Elapsed-time oracle with wide margins and up to three re-measurements: a regression of a few hundred milliseconds is not seen; only labelled points are perturbed, not arbitrary preemption; upload stalls and redirect chains are driven on the plain route only (stalls and completed responses also inside a CONNECT tunnel).",
          "DESIGN.md §4 C13"),
  "C17": ("enumeration (all lists of <= 2 addresses per family) plus proptest sampling of address lists x per-address behaviour on real loopback sockets, against an event simulation of the race; firm lower time bound, re-measured upper bound",
          "Addresses that accept, refuse (bound, not listening), never answer (backlog-0 listener with a full queue) or accept late (after 300 ms, reached by SYN retransmission) behind a resolver override; asserts success iff reachable, winner is an acceptor, error otherwise, at least 200 ms per black hole ordered before the first acceptor (IPv6 first, alternating) and about one race interval rather than a connect timeout per unresponsive address.",
